@@ -597,6 +597,8 @@ func Dial(ctx context.Context, opt Options) (c *Client, err error) {
 
 	client, err := Connect(ctx, conn, opt)
 	if err != nil {
+		// Connection was opened here, so it should not outlive failed handshake.
+		_ = conn.Close()
 		return nil, errors.Wrap(err, "connect")
 	}
 
